@@ -346,16 +346,18 @@ static int nominalOrder(const std::string& m) {
     if (m == "rk2" || m == "verlet") return 2;
     return 1;
 }
-// measured on the clean tree (6 seeds x thorough ladders, see notes/C20.md) times ~10
+// max of global_err/acc measured on the clean tree (3 thorough-size runs, ~1.4e4 ladder points, see notes/C20.md),
+// times ~10:  rk2 10, rk3 14, cpodes_adams 125, see2 160, verlet 216, cpodes_bdf 250, merson 419, rkf 633, euler 1180
 static double globalErrBound(const std::string& m) {
-    if (m == "rk2" || m == "rk3") return 80;
-    if (m == "cpodes_adams" || m == "see2") return 1000;
+    if (m == "rk2") return 100;
+    if (m == "rk3") return 140;
+    if (m == "cpodes_adams") return 1300;
+    if (m == "see2") return 1600;
     if (m == "cpodes_bdf" || m == "verlet") return 2500;
-    if (m == "merson") return 3500;
-    if (m == "rkf") return 5000;
+    if (m == "merson") return 4500;
+    if (m == "rkf") return 6500;
     return 13000;   // euler
 }
-
 // global error over [t0,t0+T] at nrep equally spaced report times, default options (interpolation allowed)
 static int g_lastSteps = 0;
 static double runGlobal(const std::string& method, const Problem& P, double acc, int nrep, double fixedH = -1) {
@@ -386,10 +388,10 @@ static void ladderCase(const std::string& method, const Problem& P, const std::v
         try { e = runGlobal(method, P, a, 10); } catch (const std::exception&) { e = NAN; }
         errs.push_back(e);
         vh::P("global_err_over_acc", key + ".global_err", e / a, globalErrBound(method));
-        vh::P("global_err_per_step_over_acc", key + ".err_per_step", e / (a * std::max(1, g_lastSteps)), 50);
+        vh::P("global_err_per_step_over_acc", key + ".err_per_step", e / (a * std::max(1, g_lastSteps)), 100);
     }
     for (size_t i = 0; i + 1 < accs.size(); ++i)
-        vh::P("tighten_not_worse", key + ".tighten", errs[i + 1] / std::max(errs[i], accs[i + 1]), 3);
+        vh::P("tighten_not_worse", key + ".tighten", errs[i + 1] / std::max(errs[i], accs[i + 1]), 4);
 }
 static void orderCase(const std::string& method, const Problem& P, double h) {
     vh::Line in = vh::I("acc"); in.s("order").s(method); emitProblem(in, P); in.d(h); in.emit();
@@ -402,14 +404,15 @@ static void orderCase(const std::string& method, const Problem& P, double h) {
     // between the h^p and h^(p+1) error terms; a method of genuinely lower order is low on both.
     // Pairs whose finer error is at rounding level (< 1e-12) carry no information and are skipped.
     double e1 = NAN, e2 = NAN, e3 = NAN;
-    try { e1 = runGlobal(method, P, 0, 4, h); e2 = runGlobal(method, P, 0, 4, h / 2); e3 = runGlobal(method, P, 0, 4, h / 4); }
+    // (errors are maxima over 16 report times.)  A method one order lower shows a deficit of about 1.
+    try { e1 = runGlobal(method, P, 0, 16, h); e2 = runGlobal(method, P, 0, 16, h / 2); e3 = runGlobal(method, P, 0, 16, h / 4); }
     catch (const std::exception&) {}
     double pobs = -INFINITY; bool any = false;
     if (!(e2 < 1e-12)) { pobs = std::max(pobs, std::log2(e1 / e2)); any = true; }
-    if (!(e3 < 1e-12)) { pobs = std::max(pobs, std::log2(e2 / e3)); any = true; }
+    if (!(e3 < 1e-12)) { pobs = std::max(pobs, std::max(std::log2(e2 / e3), std::log2(e1 / e3) / 2)); any = true; }
     // RungeKuttaFeldberg advertises order 5 but propagates its 4th-order solution (theorem rkf_order): own key
     const std::string key = method == "rkf" ? "rkf.minorder5.order" : method + "." + P.name + ".order";
-    vh::P("order_deficit", key, any ? pdoc - pobs : 0.0, 0.35);
+    vh::P("order_deficit", key, any ? pdoc - pobs : 0.0, 0.5);
 }
 // interpolated report states vs the step states around them
 static void interpCase(const std::string& method, const Problem& P, double acc, const std::vector<double>& reports) {
@@ -462,6 +465,9 @@ static long accuracyCase(vh::Rng& g, bool thorough) {
         const char* fm[] = {"merson", "rkf", "rk3", "rk2", "verlet", "euler", "see", "see2"};
         const std::string m = fm[g.below(8)];
         const int p = nominalOrder(m);
+        // 4th-order methods integrate the polynomial part of "forced" exactly and its small transient to ~1e-12 already
+        // at moderate h: no asymptotic regime above rounding level -> measure them on the oscillator instead
+        if (p >= 4 && P.name == "forced") P = randomProblem(g, "sho");
         orderCase(m, P, p >= 4 ? 0.05 : p == 3 ? 0.02 : p == 2 ? 0.01 : 0.002);
         return 2;
     } else {
